@@ -211,6 +211,31 @@ def run(rep, tier, seed):
                     continue
                 if not np.allclose(a, bb, rtol=tol, atol=tol):
                     fails.append((case, f"{sname}: variable {n0} (renamed {n2}) = {a} in the original and {bb} after reordering / renaming"))
+    # ---- start values given by an expression (Var(init=...)) over a parameter and a variable: the value must not depend on how the
+    #      names of the two sort
+    from Solverz import Model, Var, Param, Eqn
+    ninit = 0
+    for (nx, nk, nz) in [("c", "k", "z"), ("u", "k", "z"), ("x", "a", "w"), ("b", "a", "w"), ("va", "va1", "q"), ("m2", "m", "s")]:
+        for form in ("k + x**2", "x*k - k", "k**2 + x"):
+            try:
+                m = Model()
+                xv = Var(nx, [2.0, 3.0]); kp = Param(nk, [3.0, -1.0])
+                setattr(m, nx, xv); setattr(m, nk, kp)
+                expr = {"k + x**2": kp + xv ** 2, "x*k - k": xv * kp - kp, "k**2 + x": kp ** 2 + xv}[form]
+                want = {"k + x**2": np.array([3.0 + 4.0, -1.0 + 9.0]), "x*k - k": np.array([6.0 - 3.0, -3.0 + 1.0]),
+                        "k**2 + x": np.array([9.0 + 2.0, 1.0 + 3.0])}[form]
+                zv = Var(nz, init=expr)
+                setattr(m, nz, zv)
+                m.e1 = Eqn("e1", xv - 1); m.e2 = Eqn("e2", zv - xv * kp)
+                eqs_i, y0_i = lang.quiet(m.create_instance)
+                got = np.asarray(y0_i[nz], dtype=float)
+                ninit += 1
+                if not np.allclose(got, want, rtol=1e-13, atol=0):
+                    fails.append((dict(names=dict(x=nx, k=nk, z=nz), init=form), f"start value of {nz} = init({form}) is {got} with the names x->{nx}, k->{nk}; "
+                                                                                  f"the expression evaluates to {want}"))
+            except Exception as ex:  # noqa
+                rep.notes.append(f"init family {nx},{nk},{nz},{form}: {type(ex).__name__}: {str(ex)[:80]}")
+    stats["init_expressions"] = ninit
     rep.cov["evaluations"] = ncmp
     rep.cov["distinct_nontrivial"] = nvariants
     rep.cov["rule"] = ("for each generated model 3-5 variants: random permutation of variable, parameter and equation declarations, plus injective "
